@@ -769,6 +769,15 @@ fn gen3_multi_phase(rng: &mut Rng) -> Scn3 {
             break;
         }
     }
+    // a trial that takes longer than a second, and callers who arrive meanwhile: a slow trial is
+    // still a trial in flight
+    if rng.chance(1, 4) && callers.len() <= 12 {
+        let t0 = 1 + wait;
+        callers.push(Caller { start_ms: t0, beh: Behaviour { lat_ms: *rng.pick(&[1300u64, 1600]), out: Outcome::Ok, yields: 0 }, cancel: CancelSpec::Never, via_plain: false });
+        for k in 0..rng.range(1, 2) {
+            callers.push(Caller { start_ms: t0 + 1100 + 60 * k, beh: Behaviour { lat_ms: *rng.pick(&[0u64, 10]), out: Outcome::Ok, yields: 0 }, cancel: CancelSpec::Never, via_plain: false });
+        }
+    }
     Scn3 {
         cfg,
         fallback_ms: if rng.chance(1, 4) { Some(0) } else { None },
@@ -861,7 +870,7 @@ pub fn valid3(s: &Scn3) -> bool {
         && s.cfg.classifier == 0
         && !s.callers.is_empty()
         && s.callers.len() <= 16
-        && s.callers.iter().all(|c| c.start_ms <= 1500 && c.beh.lat_ms <= 400 && c.beh.yields <= 4 && matches!(c.beh.out, Outcome::Ok | Outcome::Err(0) | Outcome::Never))
+        && s.callers.iter().all(|c| c.start_ms <= 1500 && c.beh.lat_ms <= 2000 && c.beh.yields <= 4 && matches!(c.beh.out, Outcome::Ok | Outcome::Err(0) | Outcome::Never))
         && s.fallback_ms.map(|f| f <= 20).unwrap_or(true)
         && s.force_open_at.map(|t| t <= 1500).unwrap_or(true)
         && s.force_closed_at.map(|t| t <= 1500).unwrap_or(true)
